@@ -156,7 +156,18 @@ def parse(repo):
         raise TranslateError("FIRST-set switches not found in the expected form: %s" % e)
     if not (stmt_decl and for_decl and decl_spec and spec_qual):
         raise TranslateError("an empty FIRST set")
-    return dict(guarded=guarded, stmt_decl=stmt_decl, for_decl=for_decl, decl_spec=decl_spec, spec_qual=spec_qual, prefix=prefix, postfix=postfix, typestart=typestart, levels=levels, prec=prec, ra=ra, kinds=kinds, kdef=kdef.split("::")[1], isop=sorted(isop), isasg=sorted(isasg), isbin=sorted(isbin))
+    # ---- the statement dispatch of parseStatement: which rule each statement keyword / token is handed to
+    i0 = ps.index("bool Parser::parseStatement(")
+    i1 = ps.index("\nbool Parser::", i0 + 10)
+    sb = ps[i0:i1]
+    dispatch = []
+    for m in re.finditer(r"case SyntaxKind::(\w+):((?:(?!case SyntaxKind::)(?!default:)[\s\S])*?)return (parse\w+)\(", sb):
+        lab, between, fn = m.group(1), m.group(2), m.group(3)
+        if lab.startswith("Keyword_") and lab[8:] in ("if", "switch", "case", "default", "while", "do", "for", "goto", "continue", "break", "return") or lab == "OpenBraceToken":
+            dispatch.append((lab, fn))
+    if len(dispatch) < 12:
+        raise TranslateError("parseStatement: statement dispatch outside the subset (%d cases found)" % len(dispatch))
+    return dict(dispatch=dispatch, guarded=guarded, stmt_decl=stmt_decl, for_decl=for_decl, decl_spec=decl_spec, spec_qual=spec_qual, prefix=prefix, postfix=postfix, typestart=typestart, levels=levels, prec=prec, ra=ra, kinds=kinds, kdef=kdef.split("::")[1], isop=sorted(isop), isasg=sorted(isasg), isbin=sorted(isbin))
 
 
 def main(repo, outpath):
@@ -202,6 +213,8 @@ def main(repo, outpath):
                            ("specQualStart", "spec_qual", "`parseSpecifierQualifierList`: keywords it takes as a specifier or qualifier")):
         L.append("/-- %s -/" % doc)
         L.append("def %s : List Kind := [%s]\n" % (name, ", ".join("." + k for k in t[key])))
+    L.append("/-- `parseStatement`: the rule each statement keyword (and `{`) is handed to -/")
+    L.append("def stmtDispatch : List (Kind × String) := [%s]\n" % ", ".join('(.%s, "%s")' % kv for kv in t["dispatch"]))
     L.append("def levelNames : List (String × Nat) := [%s]" % ", ".join('("%s", %d)' % kv for kv in t["levels"].items()))
     L.append("\nend PsycheModel.Generated.Facts\n")
     txt = "\n".join(L)
